@@ -142,7 +142,7 @@ func (h *genericContextualizer) Execute(ctx heimdall.Context, sub *subject.Subje
 	}
 
 	if h.ttl > 0 {
-		cacheKey = h.calculateCacheKey(sub, vals, payload)
+		cacheKey = h.calculateCacheKey(ctx, sub, vals, payload)
 		if entry, err := cch.Get(ctx.AppContext(), cacheKey); err == nil {
 			var cd contextualizerData
 
@@ -353,6 +353,7 @@ func (h *genericContextualizer) readResponse(ctx heimdall.Context, resp *http.Re
 }
 
 func (h *genericContextualizer) calculateCacheKey(
+	ctx heimdall.Context,
 	sub *subject.Subject,
 	values map[string]string,
 	payload string,
@@ -377,7 +378,23 @@ func (h *genericContextualizer) calculateCacheKey(
 		hash.Write(stringx.ToBytes(values[k]))
 	}
 
+	// the forwarded headers and cookies are sent to the endpoint: the response depends on their values
+	hash.Write(forwardedHash(h.fwdHeaders, func(name string) string { return ctx.Request().Header(name) }))
+	hash.Write(forwardedHash(h.fwdCookies, func(name string) string { return ctx.Request().Cookie(name) }))
+
 	return hex.EncodeToString(hash.Sum(nil))
+}
+
+// forwardedHash covers the given names of headers, respectively cookies, and the values they have in the request.
+func forwardedHash(names []string, valueOf func(name string) string) []byte {
+	hash := sha256.New()
+
+	for _, name := range names {
+		hash.Write(stringx.ToBytes(name))
+		hash.Write(stringx.ToBytes(valueOf(name)))
+	}
+
+	return hash.Sum(nil)
 }
 
 func (h *genericContextualizer) renderTemplates(
